@@ -29,6 +29,9 @@ type permAct struct {
 	Target int    `json:"u"`
 	Mode   string `json:"m"`
 	Fail   int    `json:"fail,omitempty"` // k-th store call of this request fails (0 = none)
+	// As overrides the acting client: "owner" = a session of the topic's owner (first participant of a
+	// p2p topic), "target" = a session of user Target. Used by the multi-step patterns.
+	As string `json:"as,omitempty"`
 }
 
 type permProg struct {
@@ -40,7 +43,8 @@ type permProg struct {
 
 var permModes = []string{"", "N", "JRWPS", "JRWPASDO", "JRWPA", "JRWPAS", "JRWPSO", "RWP", "JP", "O", "JRWPASD", "J", "XYZ", "jrwps", "JRWPSD", "JRWPASO"}
 
-func genPerm(rt *rapid.T, faults bool) permProg {
+func genPerm(rt *rapid.T, faults bool, lateFaults ...bool) permProg {
+	lateFaults0 := len(lateFaults) > 0 && lateFaults[0]
 	p := permProg{Sc: genScenario(rt, 4, 2, true), Faults: faults}
 	p.Stranger = rapid.Bool().Draw(rt, "stranger")
 	n := rapid.IntRange(4, 18).Draw(rt, "nacts")
@@ -58,6 +62,53 @@ func genPerm(rt *rapid.T, faults bool) permProg {
 			a.Fail = rapid.IntRange(1, 4).Draw(rt, "failat")
 		}
 		p.Acts = append(p.Acts, a)
+	}
+	// Multi-step patterns (drawn last, run first, on the freshly configured topics): rare sequences that
+	// uniformly random acts almost never line up.
+	npat := rapid.SampledFrom([]int{0, 0, 1, 1, 2}).Draw(rt, "npatterns")
+	var pre []permAct
+	for i := 0; i < npat; i++ {
+		t := rapid.IntRange(0, 2).Draw(rt, "ptopic")
+		u := rapid.IntRange(0, 4).Draw(rt, "ptarget")
+		switch rapid.SampledFrom([]string{"ban_resub", "admin_selfgrant", "offer_reload_accept", "unsub_reload_resub", "offer_partial_accept"}).Draw(rt, "pattern") {
+		case "ban_resub":
+			ban := rapid.SampledFrom([]string{"N", "N", "RWP", "JP"}).Draw(rt, "pban")
+			pre = append(pre, permAct{Kind: "setother", Topic: t, Target: u, Mode: ban, As: "owner"},
+				permAct{Kind: "deltopic", Topic: t, Target: u, As: "target"},
+				permAct{Kind: "sub", Topic: t, Target: u, Mode: rapid.SampledFrom([]string{"", "JRWPS"}).Draw(rt, "pmode"), As: "target"})
+		case "admin_selfgrant":
+			pre = append(pre, permAct{Kind: "setother", Topic: t, Target: u, Mode: rapid.SampledFrom([]string{"JRWPA", "JRWPAS"}).Draw(rt, "padmin"), As: "owner"},
+				permAct{Kind: "setself", Topic: t, Target: u, Mode: rapid.SampledFrom([]string{"JRWPASD", "JRWPAD", "JRWPASDO", "JRWPASO"}).Draw(rt, "pself"), As: "target"})
+		case "offer_reload_accept":
+			pre = append(pre, permAct{Kind: "setother", Topic: t, Target: u, Mode: "JRWPASDO", As: "owner"},
+				permAct{Kind: "reload", Topic: t, Target: u},
+				permAct{Kind: "setdesc", Topic: t, Target: u, Mode: "JRWPS", As: "target"},
+				permAct{Kind: "setself", Topic: t, Target: u, Mode: "JRWPASDO", As: "target"})
+		case "unsub_reload_resub":
+			pre = append(pre, permAct{Kind: "unsub", Topic: t, Target: u, As: "target"},
+				permAct{Kind: "reload", Topic: t, Target: u},
+				permAct{Kind: "sub", Topic: t, Target: u, As: "target"})
+		case "offer_partial_accept":
+			pre = append(pre, permAct{Kind: "setother", Topic: t, Target: u, Mode: rapid.SampledFrom([]string{"O", "JRWPSO", "JRWPASDO"}).Draw(rt, "poffer"), As: "owner"},
+				permAct{Kind: "sub", Topic: t, Target: u, Mode: rapid.SampledFrom([]string{"O", "JRWPSO", "JRWPASDO", "JO"}).Draw(rt, "paccept"), As: "target"})
+		}
+	}
+	if faults {
+		for i := range pre {
+			if rapid.IntRange(0, 3).Draw(rt, "pfaulty") == 0 {
+				pre[i].Fail = rapid.IntRange(1, 4).Draw(rt, "pfailat")
+			}
+		}
+	}
+	p.Acts = append(pre, p.Acts...)
+	if !faults && lateFaults0 && rapid.IntRange(0, 3).Draw(rt, "latefaults") == 0 {
+		// the ownership and authorisation rules must also survive a failing store call
+		p.Faults = true
+		for i := range p.Acts {
+			if rapid.IntRange(0, 3).Draw(rt, "lfaulty") == 0 {
+				p.Acts[i].Fail = rapid.IntRange(1, 4).Draw(rt, "lfailat")
+			}
+		}
 	}
 	return p
 }
@@ -359,6 +410,20 @@ func runPerm(t *testing.T, sched simrt.Schedule, prog permProg) ([]Violation, Ru
 		// topics on which an injected store failure interrupted a multi-write handler: what the topic looks
 		// like after its next load from the store is still a consequence of that failure
 		faultTaint := map[string]string{}
+		// owner-count invariants on such a topic: the three uncompensated writes of an ownership transfer
+		relabel := func(vs []Violation) []Violation {
+			for i := range vs {
+				if vs[i].Property != "C06" {
+					continue
+				}
+				for topic := range faultTaint {
+					if strings.Contains(vs[i].Text, topic) && (strings.Contains(vs[i].Key, "owners-") || strings.Contains(vs[i].Key, "owner-field-mismatch") || strings.Contains(vs[i].Key, "stored-owner-mismatch")) {
+						vs[i].Key = "store-fault-partial-effect owners"
+					}
+				}
+			}
+			return vs
+		}
 		w.OnIsoFire = func(p *isoProbe) {
 			if p.Sent == nil || p.Sent.Msg == nil {
 				return
@@ -393,7 +458,10 @@ func runPerm(t *testing.T, sched simrt.Schedule, prog permProg) ([]Violation, Ru
 			if failed {
 				simrt.Probe("fault.store_err")
 			}
-			out = append(out, permInvariants(w, post, where)...)
+			if failed && w.Disk.Dump() != e.DiskDump {
+				faultTaint[e.Topic] = faultedHandler(m)
+			}
+			out = append(out, relabel(permInvariants(w, post, where))...)
 			// a {set} from a session that is not attached is served by replyOfflineTopicSetSub straight from the
 			// store, also when the topic is loaded: the live topic does not learn about the change
 			if m.Set != nil && s.Code >= 200 && s.Code < 300 {
@@ -556,6 +624,10 @@ func runPerm(t *testing.T, sched simrt.Schedule, prog permProg) ([]Violation, Ru
 					ps.transfers++
 					newOwnerPre := pr.PerUser[po.Owner]
 					accepted := actor == po.Owner && newOwnerPre.Given&types.ModeOwner != 0 && (m.Sub != nil || (m.Set != nil && m.Set.Sub != nil))
+					// the offer must be a grant the owner's request really made: it is in the store
+					if st, ok := e.PreDisk[simdbSubKey(name, po.Owner)]; accepted && (!ok || st[1]&types.ModeOwner == 0) {
+						out = append(out, vio("C06", "ownership-accepted-without-stored-offer", "owner of %s changed to %s by %s although the stored grant of that user was %v (cached %v)", name, po.Owner.UserId(), canon(m), st[1], newOwnerPre.Given))
+					}
 					if !accepted {
 						out = append(out, vio("C06", "ownership-moved-without-protocol", "owner of %s changed from %s to %s by %s of user %d (new owner's previous grant %v)", name, pr.Owner.UserId(), po.Owner.UserId(), canon(m), p.C.User.Idx, newOwnerPre.Given))
 					}
@@ -602,6 +674,19 @@ func runPerm(t *testing.T, sched simrt.Schedule, prog permProg) ([]Violation, Ru
 
 		for _, a := range prog.Acts {
 			c := w.Clients[a.Client%len(w.Clients)]
+			if ntop := len(sc.Groups) + len(sc.P2P); ntop > 0 {
+				switch a.As {
+				case "owner":
+					if ti := a.Topic % ntop; ti < len(sc.Groups) {
+						c = w.clientsOf(sc.Groups[ti].Owner)[0]
+					} else {
+						c = w.clientsOf(sc.P2P[ti-len(sc.Groups)][0])[0]
+					}
+					simrt.Probe("perm.pattern_step")
+				case "target":
+					c = w.clientsOf(a.Target % len(w.Users))[0]
+				}
+			}
 			name := c01TopicName(sc, c, a.Topic)
 			tgt := fmt.Sprintf("@usr%d", a.Target%len(w.Users))
 			var op *Op
@@ -674,7 +759,7 @@ func runPerm(t *testing.T, sched simrt.Schedule, prog permProg) ([]Violation, Ru
 					}
 					div.forget(gn)
 				}
-				out = append(out, permInvariants(w, sn, "after reload")...)
+				out = append(out, relabel(permInvariants(w, sn, "after reload"))...)
 				// the come-back phase consists of plain {sub} requests
 				rc := "sub"
 				if strings.HasPrefix(gn, "p2p") {
@@ -706,7 +791,7 @@ func runPerm(t *testing.T, sched simrt.Schedule, prog permProg) ([]Violation, Ru
 		}
 		w.settle()
 		sn = w.snapshot()
-		out = append(out, permInvariants(w, sn, "at the end")...)
+		out = append(out, relabel(permInvariants(w, sn, "at the end"))...)
 		out = append(out, div.filter(cacheVsStore(w, sn, "at the end"), "settle", detachedDiverged)...)
 		return out
 	})
@@ -880,7 +965,7 @@ func faultedHandler(m *ClientComMessage) string {
 func TestSim_C06(t *testing.T) {
 	rapid.Check(t, func(rt *rapid.T) {
 		sched := genSchedule(rt)
-		prog := genPerm(rt, false)
+		prog := genPerm(rt, false, true)
 		viol, st, ps := runPerm(t, sched, prog)
 		st.Trigger = ps.transfers >= 1 || ps.refusedOwnerAttacks >= 2
 		proc.Extra["c06.transfers"] += float64(ps.transfers)
